@@ -136,14 +136,15 @@ def run(tier, seed):
         tested = []
         sl = [lines[s:e] for (s, e) in runs if json.loads(lines[s]).get("run") == "selftest"]
         sp = os.path.join(wd, "self.ndjson")
-        open(sp, "w").write("\n".join(sl[0]) + "\n")
-        if core.tv_once("Trace_Rdp", sp, decoded, wd, overrides=True) is None:
-            tested = selftest.run("Trace_Rdp", sl[0], decoded, wd, corruptions(), overrides=True)
+        if sl and not v.violations:       # (after a driver death the run may be missing: the violation is reported, the self-test skipped)
+            open(sp, "w").write("\n".join(sl[0]) + "\n")
+            if core.tv_once("Trace_Rdp", sp, decoded, wd, overrides=True) is None:
+                tested = selftest.run("Trace_Rdp", sl[0], decoded, wd, corruptions(), overrides=True)
         lic = licence_table(v, wd)
         # beyond the listed properties: the configuration is what the client requests (core data, capability sets);
         # the same traces validated again with the extra conjunct CfgEchoOk - mismatches are notes, never violations
         echo = {"runs": accepted, "mismatches": []}
-        if not rejects:
+        if not rejects and not v.violations:
             acc2, rej2 = core.tv_all("Trace_Rdp", trace, decoded, wd, shards=8, max_rejects=3, overrides=True, cfg="Trace_Rdp_cfgecho.cfg")
             for r in rej2:
                 note = "run %s: %s" % (json.loads(r["run_events"][0]).get("run"), r["event"][:200])
@@ -151,7 +152,7 @@ def run(tier, seed):
                 print("NOTE: configuration echo (not a listed property): " + note)
             echo["runs"] = acc2
             # the extra conjunct is not vacuous: the same run recorded under another configured layout / name must be rejected
-            for field in ("layout", "name"):
+            for field in (("layout", "name") if sl else ()):
                 evs = [json.loads(x) for x in sl[0]]
                 evs[0]["cfg"][field] = ("de" if evs[0]["cfg"]["layout"] != "de" else "us") if field == "layout" else evs[0]["cfg"]["name"] + [120]
                 cp = os.path.join(wd, "echo-self.ndjson")
